@@ -202,7 +202,15 @@ class Profile:
             self.rocd.append(r)
             self.acc.append(acc)
             self.cr.append(bool(flag))
-            self.gs.append(v * fg)
+            g = v * fg
+            gd = case.get('gs_dtype', 'f8')
+            if gd == 'f4':  # ground speeds as read from single-precision data: exactly representable there
+                import numpy as _np
+
+                g = float(_np.float32(g))
+            elif gd == 'i8':  # whole metres per second held in an integer array
+                g = float(max(1, round(g)))
+            self.gs.append(g)
             self.temp.append(isa_temperature(h) + case['dT'])
         for name in case.get('scalar_inputs', []):
             lst = {'temperature': self.temp, 'rocd': self.rocd, 'acceleration': self.acc, 'in_cruise': self.cr}[name]
@@ -512,6 +520,7 @@ def case_st(draw):
         'dT': draw(st.one_of(st.sampled_from([0.0, 20.0, -20.0]), U(-20.0, 20.0))),
         'seg': segs[0] if draw(st.booleans()) else segs[1:],
         'flag_enc': draw(st.sampled_from(['bool', 'bool', 'float', 'int'])),
+        'gs_dtype': draw(st.sampled_from(['f8', 'f8', 'f8', 'f4', 'i8'])),
         'scalar_inputs': draw(st.one_of(
             st.just([]), st.just([]), st.just([]), st.just([]),
             st.lists(st.sampled_from(['temperature', 'rocd', 'acceleration', 'in_cruise']), unique=True, max_size=4))),
@@ -591,7 +600,7 @@ class Checker:
             rocd=np.array(prof.rocd, dtype=float),
             acceleration=np.array(prof.acc, dtype=float),
             in_cruise=flags,
-            groundspeed=np.array(prof.gs, dtype=float),
+            groundspeed=np.array(prof.gs, dtype=float).astype({'f8': float, 'f4': np.float32, 'i8': np.int64}[case.get('gs_dtype', 'f8')]),
         )
         for name in case.get('scalar_inputs', []):
             v = a[name][0]
@@ -960,7 +969,7 @@ def body(ctx: core.Ctx, case):
     ctx.case(case)
     ctx.label('engine:' + case['engine'], 'variant:' + case['variant'],
               'seg:array' if isinstance(case['seg'], list) else 'seg:scalar',
-              'flags:' + case.get('flag_enc', 'bool'))
+              'flags:' + case.get('flag_enc', 'bool'), 'groundspeed_dtype:' + case.get('gs_dtype', 'f8'))
     if case.get('scalar_inputs'):
         ctx.label('scalar_inputs')
     n = len(case['points'])
